@@ -11,6 +11,7 @@ pub mod props;
 pub mod rec;
 pub mod refxml;
 pub mod sources;
+pub mod types;
 
 #[cfg(feature = "full")]
 pub const VARIANT: &str = "full";
